@@ -5,3 +5,4 @@ import RustCcModel.Properties.C07
 #print axioms RustCc.C07.idle_can_collect
 #print axioms RustCc.C07.panic_reaches_api_boundary
 #print axioms RustCc.C07.unwind_through_script
+#print axioms RustCc.C07.idle_marks_clean
